@@ -63,6 +63,20 @@ def _core(rng, cfg, nt):
     G.host_call_blocks(devices[2])
     regs = _simple_regime(rng, cfg)
     regs['pc'] = G.CODE + 4 * rng.randrange(0, 64)
+    full = cfg['memory_system_architecture'] == 'VMSA' and rng.random() < 0.5
+    if full:
+        # the complete translation set-up of the C18 streams: MMU on, tables with every memory-type selector, programs also running from the
+        # page-mapped window (translation state is per-instance state like any other)
+        from scenarios import c18
+        tables = {'kind': 'ram', 'begin': c18.TABLES, 'end': c18.TABLES + c18.TABLES_SZ}
+        c18._vmsa_tables(rng, tables, 'identity')
+        devices += [tables, {'kind': 'ram', 'begin': c18.WIN, 'end': c18.WIN + 0x4000}]
+        regs = c18.regime(rng, cfg, True)
+        regs['sys']['sctlr'] |= 1 | 1 << 28                      # M, TRE
+        regs['sys']['ttbcr'] = 0
+        regs['sys']['ttbr0_64'] = c18.TABLES
+        regs['sys']['dacr'] = rng.choice([0x55555555, 0xFFFFFFFF])
+        regs['pc'] = rng.choice([G.CODE, c18.WIN + 0x1000 * rng.randrange(4)]) + 4 * rng.randrange(0, 64)
     tb = rng.random()
     words = []
     for _ in range(nt):
@@ -96,7 +110,7 @@ def _core(rng, cfg, nt):
         else:
             events.append({'tick': t, 'core': 0, 'kind': 'regime', 'regs': _simple_regime(rng, cfg)})
     events.sort(key=lambda e: e['tick'])
-    return {'config': cfg, 'devices': devices, 'regs': regs, 'words': words, 'force': None, 'events': events}
+    return {'config': cfg, 'devices': devices, 'regs': regs, 'words': words, 'force': None, 'events': events, 'no_poke': [0x50000] if full else []}
 
 
 def _cfg(rng):
